@@ -528,15 +528,23 @@ func checkCloseSites(c *Ctx, rule string) {
 			c.check(afterJoin(fn, in), rule, "caller of Request.close: RequestServer.Serve sweep", pos(in),
 				"the sweep closes requests only after wg.Wait() joined every worker", "the end sweep closes requests before all workers were joined")
 		case fn == worker:
-			// allowed only on a request that never got a handle: result of requestFromPacket not passed to nextRequest
+			// allowed only on a request that was not entered into the handle table on the way here
 			recv := recvOf(callOf(in))
 			fresh := false
 			if call, ok := recv.(*ssa.Call); ok {
 				if f := call.Call.StaticCallee(); f != nil && f.Name() == "requestFromPacket" {
 					fresh = true
 					for _, r := range *call.Referrers() {
-						if cc := callOf(r); cc != nil && cc.StaticCallee() != nil && cc.StaticCallee().Name() == "nextRequest" {
-							fresh = false
+						if p.publishesRequest(callOf(r)) != nil {
+							// entered into the table on a path that leads to this close?
+							// (within one iteration of the worker's loop: the next iteration has another request)
+							nextIter := func(ssa.Instruction) bool { return false }
+							if l := innermostLoop(loopsOf(fn), r.Block()); l != nil {
+								nextIter = isLoopHeadStart(l)
+							}
+							if reachAvoiding(fn, r, func(x ssa.Instruction) bool { return x == in }, nextIter) {
+								fresh = false
+							}
 						}
 					}
 				}
